@@ -109,7 +109,9 @@ func init() {
 // function and table names.
 var bindNames = []string{"p", "q", "v", "w", "n", "lim", "ia", "sa", "ba", "ib", "true", "null", "count", "T", "U", "fi", "r", "g", "k",
 	// every class of first character an identifier may have, and odd continuations
-	"$p", "_p", "P", "Zq", "$", "_", "p_1", "$9x", "__subquery0"}
+	"$p", "_p", "P", "Zq", "$", "_", "p_1", "$9x", "__subquery0",
+	// words that are keywords elsewhere or might become keywords
+	"distinct", "contains", "has", "set", "between", "away", "project", "datetime"}
 
 func generate(w *mon.W) {
 	rng := gen.RNG(w.Seed, "c06")
@@ -401,10 +403,11 @@ func generate(w *mon.W) {
 		uses := []string{"where b > %s", "take %s", "extend z = %s + 1", "project z = %s, b", "top %s by b", "where f(%s) == 1", "summarize s = sum(%s) by k", "where b in (%s, 1)", "where -%s < 0",
 			"join (U) on $left.a == %s", "extend y = %s | where y == %s",
 			// the same comparison with the bound name and with the column of that name, side by side
+			"extend z = f(%s - 1, %s) | where g(%s + 1) == h(%s)",
 			"where b > %s and b > `%a`", "where b > `%a` and b > %s", "where b == %s or b == `%a` or b == %s", "extend p = %s, q = `%a`, r = %s"}
 		for ni, a := range names {
 			for ui, u := range uses {
-				for _, name := range []string{"n", "lim"} {
+				for _, name := range []string{"n", "lim", "distinct", "contains"} {
 					for _, viaLet := range []bool{false, true} {
 						for shape, q := range []string{"T | " + a + " | " + u, "T | " + u + " | " + a + " | " + u} {
 							if strings.HasPrefix(a, "render") && shape == 1 {
